@@ -434,6 +434,9 @@ pub fn numbering_sweep(report: &Report) {
 
 pub fn run(opts: Opts) -> i32 {
     let report = Report::new("C16", "exploration", opts.clone());
+    if let Some(path) = &opts.replay {
+        report.replay_by_re_enumeration(path);
+    }
     report.set_rule(
         "scripts: every set of 0..2 (quick) / 0..3 (thorough) distinct function-call items from {write A, write B (append, so a double \
          execution is visible), read, unknown tool, invalid arguments} x argument delivery {done item, deltas, arguments.done, superseded \
